@@ -225,6 +225,10 @@ def generate(rs, mode, tier, index):
                         # one outside that range (nothing to slice: the metric is 0)
                         "at_l1": rng.choice([None, None, float(sig(rng.uniform(l1s[0], l1s[-1]))),
                                              float(sig(rng.uniform(l1s[0], l1s[-1]))),
+                                             # exactly the total of one of the points (round
+                                             # numbers in practice): that point lies *on* the plane
+                                             float(l1s[rng.integers(1, len(l1s) - 2)]) if len(l1s) > 3
+                                             else float(sig(rng.uniform(l1s[0], l1s[-1]))),
                                              float(sig(l1s[-1] * 1.5))]),
                         "ctn": rng.coin(0.3),
                         "twin": rng.choice([None, "scale", "permute", "ctnflip"])})
